@@ -14,7 +14,7 @@ long syscall(long, ...);
 #define PASS(nr, ...) return -1
 #endif
 #define NS 3
-#define CAP 2048
+#define CAP 36000
 #define BIGCAP 70400
 struct vsock { int used, closed_by_peer, fragment, open; unsigned char* in; int in_n, in_pos, in_cap; unsigned char* out; int out_n, out_cap; };
 static struct vsock vs[NS];
